@@ -1,7 +1,9 @@
 mod check;
 mod dna;
 mod engine;
+mod faults;
 mod gen;
+mod items;
 mod known;
 mod props;
 mod spec;
